@@ -684,6 +684,42 @@ func init() {
 		return newNativeErr(s, nil)
 	})
 	reg("errors.Is", func(fr *frame, a []value) value { return errIs(fr, a[0].(iface), a[1].(iface)) })
+	reg("errors.As", func(fr *frame, a []value) value {
+		err := a[0].(iface)
+		tgt := a[1].(iface)
+		pt, ok := tgt.t.Underlying().(*types.Pointer)
+		if !ok || tgt.v.(*value) == nil {
+			rtPanic(fr, "errors: target must be a non-nil pointer")
+		}
+		elem := pt.Elem()
+		var walk func(e iface) bool
+		walk = func(e iface) bool {
+			if e.t == nil {
+				return false
+			}
+			if _, isIface := elem.Underlying().(*types.Interface); isIface {
+				if _, native := e.v.(nativeObj); !native && types.Implements(e.t, elem.Underlying().(*types.Interface)) {
+					*tgt.v.(*value) = e
+					return true
+				}
+			} else if types.Identical(e.t, elem) {
+				store(elem, tgt.v.(*value), e.v)
+				return true
+			}
+			if m := findMethod(fr, e, "As"); m != nil {
+				if fr.i.px.BranchV(fr, call(fr.i, fr, 0, m, []value{e.v, tgt})) {
+					return true
+				}
+			}
+			for _, u := range unwrapAll(fr, e) {
+				if walk(u) {
+					return true
+				}
+			}
+			return false
+		}
+		return walk(err)
+	})
 	reg("errors.Unwrap", func(fr *frame, a []value) value {
 		u := unwrapAll(fr, a[0].(iface))
 		if len(u) == 1 {
